@@ -48,7 +48,8 @@ _m("C08",
    "for {declared size is None, declared size == byte counter}; the operands are the right ones (WriteOpts.sri vs the "
    "integrity returned by the publication call; WriteOpts.size vs the writer's own usize counter; MIR Eq/Ne only); each "
    "mismatch arm constructs the documented error (ssri::Error::IntegrityCheckError / Error::SizeMismatch(declared, counted)) "
-   "and reaches neither the insertion nor a success return.",
+   "and reaches neither the insertion, nor a success return, nor any mutating filesystem effect (a rejected commit leaves every "
+   "existing mapping and its content untouched).",
    "ssri's `matches` semantics for multi-hash values; that the counter is the true byte count (C02 c); behaviour for particular "
    "data/chunkings; the prior state of the key at run time.",
    "MIR gate-cut reachability (must-pass-through) + operand provenance + failure-arm dominance",
@@ -56,14 +57,16 @@ _m("C08",
 
 _m("C04",
    "(a) In every COMMIT the index-insertion call is reachable only through the Ok arm of the content publication "
-   "(close()/linker commit, `?` or match) — a visible entry implies published content. (b) Every INDEX_INSERT emits a record "
-   "with exactly one write_all on the append handle, outside any loop, of one buffer whose decoded format template is "
+   "(close()/linker commit, `?` or match) — a visible entry implies published content. (b) Every INDEX_INSERT emits its record "
+   "only through all-or-error writes (write_all / write!; never a bare write whose short count is ignored) on the append handle, "
+   "on one straight path outside any loop, and the concatenation of what they write decodes to the template "
    "\"\\n{HASH_ENTRY(json)}\\t{json}\" with the same json term in both placeholders (HASH_ENTRY = SHA-256-hex role) — records "
-   "are self-delimiting and checksummed. (c) Bucket files are only opened append+create or read-only, never written/truncated "
+   "are self-delimiting and checksummed, leading newline first. (c) Bucket files are only opened append+create or read-only, never written/truncated "
    "in place, removed only by RemoveOpts' documented full removal; removing a key is the insertion of a tombstone whose "
-   "integrity is the constant None.",
+   "integrity is the constant None. (d) Every bucket reader validates and skips: the trust-gate and skip-and-continue clauses of "
+   "C06 are re-checked here, because a torn tail must neither be taken for a record nor hide the records appended after it.",
    "What a reader sees for each torn length and continuation history (needs execution); fsync/durability; kernel atomicity of "
-   "O_APPEND writes; the reader's validate-and-skip behaviour is decided under C06.",
+   "O_APPEND writes; that the record goes out in ONE write call is a concurrency requirement and is demanded under C07 a.",
    "MIR gate-cut reachability + effect inventory constraints + format-template decoding",
    "exhaustive static analysis of ordering and record-emission structure in every configuration (necessary conditions)")
 
@@ -74,7 +77,9 @@ _m("C14",
    "into_temp_path / into_parts / into_file / TempPath::keep, zero mem::forget / ManuallyDrop::new / Box::leak / into_raw on a "
    "value whose type (transitively) owns a NamedTempFile, and no Drop impl on such a type has filesystem effects; (d) every "
    "spawn_blocking closure of the async writer that captures the temp owner returns State::Idle(Some(<that capture>)) on every "
-   "path unless it consumes it (persist / explicit drop); (e) commit and close take the writer by value.",
+   "path unless it consumes it (persist / explicit drop); (e) commit and close take the writer by value "
+   "(plus compile-fail witnesses for external callers in the thorough tier); (f) the rejection arms of every commit reach no "
+   "mutating filesystem effect (shared with C08): a rejected writer cannot disturb entries committed earlier.",
    "When a detached blocking task finishes and executor drop order (runtime behaviour of the executors); that NamedTempFile's "
    "Drop really unlinks (dependency model).",
    "call-graph who-may-call + zero-count effect rules + identity value-flow per closure + signature facts",
@@ -82,8 +87,9 @@ _m("C14",
 
 _m("C18",
    "(a) In every checked verify-and-materialise function (calls a streaming reader's check() and reaches a Copy/Reflink/HardLink "
-   "effect) the materialising step is reachable only through the verification gate — or, alternatively, every failing edge of "
-   "the verification passes a RemoveFile of the destination before returning. (b) Counts: a checked copy returns 0 + the sum of "
+   "effect or any other mutation of its destination parameter: create/open-for-write, data writes) every step that creates or "
+   "changes the destination is reachable only through the verification gate — or, alternatively, every failing edge of the "
+   "verification passes an unconditional RemoveFile of the destination before returning. (b) Counts: a checked copy returns 0 + the sum of "
    "the amounts returned by its verification reads (identity flow from the reads' Ok payload through the AddWithOverflow "
    "accumulator; no constant, no buffer length); unchecked copies return the copy primitive's count. (c) Keyed extractors: the "
    "miss arm of the lookup reaches no filesystem effect and returns Error::EntryNotFound built from the same (cache, key) "
@@ -98,10 +104,11 @@ _m("C15",
    "tempfile / reflink_copy / memmap2 / walkdir / libc that is not modelled is itself a violation): every mutating effect's "
    "path or handle, expanded interprocedurally through all call sites and struct-field construction sites up to the parameters "
    "of the public entry points, has one of the allowed shapes (cache/tmp, TempIn(cache/tmp), Content(cache,_) and its parent, "
-   "Bucket(cache,_) and its parent/handle, Child(cache), or the explicit destination of an extraction / target of a link) and "
+   "Bucket(cache,_) and its parent/handle, Child(cache), or the destination explicitly given to an extraction call — for any effect kind, a hand-written copy included — / the "
+   "absolutised target of a link as a symlink source only) and "
    "is rooted at the entry point's cache-directory parameter (first path-like parameter) or explicit destination; process-"
    "global locations (env::temp_dir, NamedTempFile::new, tempfile(), current_dir) are forbidden. (b) The key reaches a path "
-   "only as HASH_KEY(key) with the digest fed the unchanged argument; content paths depend only on (cache, integrity); every "
+   "only through a cryptographic digest call (the HASH_KEY role or a digest computed in place) fed the unchanged argument; content paths depend only on (cache, integrity); every "
    "bucket is selected by the entry point's string key travelling by identity flow (no trim/case-fold/normalise); no other "
    "effect path contains a string parameter. (c) The call-graph closure of the read-only API (read*, Reader/SyncReader::*, "
    "metadata*, exists*, list_sync, index::find*/ls) contains no mutating effect.",
@@ -117,7 +124,9 @@ _m("C03",
    "into a content path. (b) The published temp file was created with new_in({cache}/tmp) of the *same* cache as the "
    "destination (handle and destination expand to the same entry-point parameters): publication is a same-filesystem rename. "
    "(c) Every data write (write/write_all/flush, mapped copy_from_slice, fallocate) targets the private temp handle, a mapping of "
-   "it, or an append-only bucket. (e) close() reports success only if persist returned Ok or an existence probe of the same "
+   "it, or an append-only bucket. (f) A staging file that is pre-allocated to the declared size is either mapped — and then trimmed to the bytes "
+   "actually written before publication — or given back (set_len(0)) when the mapping fails: plain writes never go into a "
+   "pre-sized file, so no data+padding file can be published. (e) close() reports success only if persist returned Ok or an existence probe of the same "
    "destination succeeded (sync: gate-cut reachability; async: every value sent on the result channel is status-tied to persist, "
    "to stat(same destination), or is an earlier step's result sent under is_err()).",
    "The state of the content area at every kill instant, torn writes, kernel rename semantics, page-cache visibility of the "
@@ -141,8 +150,8 @@ _m("C09",
 
 _m("C07",
    "Four structural necessary conditions of lock-free serialisability, NOT the schedule-quantified behaviour: (a) an index "
-   "record reaches the file through exactly one write_all of one self-delimiting, checksummed buffer on a descriptor opened "
-   "append+create (no write/truncate flags), outside any loop; (b) content becomes visible only by rename (persist) of a temp "
+   "record reaches the file through exactly one write_all call (not write!/BufWriter streaming, not several writes) of one "
+   "self-delimiting, checksummed buffer on a descriptor opened append+create (no write/truncate flags), outside any loop; (b) content becomes visible only by rename (persist) of a temp "
    "file uniquely created by new_in({cache}/tmp) of the same cache, or symlink — never by in-place writing or copying; "
    "(c) every directory creation is create_dir_all / DirBuilder.recursive(true), i.e. tolerant of concurrent creation; "
    "(d) the crate has no `static mut`, no thread-local and no non-Freeze static other than plain atomic scalars, so no "
@@ -172,8 +181,12 @@ _m("C13",
    "error (io::Error, crate Error, PersistError, JoinError, walkdir::Error, channel cancellation) and that is a source rather "
    "than a forwarder must have its result flow — through `?`, with_context/map/map_err, awaits, aggregates — to a propagation "
    "point of its function (a return value, a value sent on the result channel, a stored Operation result); the closure is cut at "
-   "error-discarding combinators (ok / is_ok / unwrap_or* / err). A result that does not reach a propagation point must match the "
-   "committed tolerated table (3 entries, each keyed by owner function, callee and discard kind, with its reason). (R2) No "
+   "error-discarding combinators (ok / is_ok / unwrap_or* / err). A result that does not reach a propagation point is accepted only "
+   "if (i) it is discarded on a path whose every return is already an error (best-effort clean-up before returning Err), (ii) it is "
+   "metadata(..).is_ok()/is_err() — an existence probe, which is how Path::exists() is implemented — or (iii) it matches the "
+   "committed tolerated table (3 entries, each keyed by owner function, callee and discard kind, with its reason). (R4) The "
+   "content writers' digest/sink agreement of C02 (a) is re-checked here: a sink that can fail after accepting a prefix must not "
+   "leave that prefix outside the digest (write_all is not a resumable sink). (R2) No "
    "unwrap/expect directly on the result of a fallible filesystem call unless the same result was checked before. (R3) No "
    "flatten / filter_map(Result::ok) / map_while(Result::ok) over an iterator of io::Result (ReadDir, Lines, walkdir).",
    "Which errno each call can produce, hangs, retry behaviour, 'the same call succeeds once the fault is gone', and the state of "
@@ -295,7 +308,9 @@ _m("C19",
    "every path, and consume returns Ok only after a read through the linker returned 0. (c) Declared size and integrity are "
    "enforced by the same guards as ordinary commits (C08 rules on both link_to commits) and the default declared size is "
    "metadata(target).len() of the entry point's target. (d) A failed symlink is accepted only if exists(same destination). "
-   "(e) The path stored in the symlink is std::path::absolute(<caller's target>), never the relative path verbatim.",
+   "(e) The path stored in the symlink is std::path::absolute(<caller's target>), never the relative path verbatim, and it is "
+   "made absolute where the target is opened (the linker's constructor), not later at commit time when the working directory "
+   "may differ.",
    "What happens when the target is changed or removed after linking (C01's verification turns that into an error at run time); "
    "symlink semantics of the platform.",
    "parametric effect summaries at the link_to entry points + gate-cut reachability + provenance of the stored target",
@@ -308,8 +323,11 @@ _m("C12",
    "tokio builds of the same feature set, the abstract signature is compared: (1) the set of filesystem effects reachable "
    "(kind, open flags, role, provenance shape relative to the entry point's cache / key / destination parameters, runtime crates "
    "normalised), (2) the set of crate / ssri error variants constructed, (3) which role functions are called with which "
-   "parameter positions and which verification primitives are used. Differences must match the committed accepted-differences "
-   "table (one entry: the async keyed writer never maps memory — staging strategy only). The per-operation decision tables, "
+   "parameter positions and which verification primitives are used, (4) how the error of each fallible call is handled "
+   "(propagated / matched / tested / discarded — so an error tolerated in one flavour only is reported). Staging details are "
+   "normalised away (write_all ≡ write!, flush, metadata().is_ok() ≡ Path::exists()). Differences must match the committed "
+   "accepted-differences tables (effects: the async keyed writer never maps memory; handling: close reports through a channel, "
+   "has_content is a bool predicate — each with its reason). The per-operation decision tables, "
    "field maps, guard structure and verify/materialise order of both siblings are each compared with one oracle under C04, C05, "
    "C06, C08, C11, C18, which forces them to agree with each other.",
    "Equality of results for programs; scheduler-dependent behaviour; error message texts and buffer sizes (not part of the "
